@@ -111,6 +111,12 @@ func (f *File) syncWithoutLocking() error {
 	}
 
 	if f.writeBuf != nil {
+		// `Update` reads the write cache to its end and closes what `GetFile` returns; keep the cache and its cursor usable
+		pos, err := f.writeBuf.Seek(0, io.SeekCurrent)
+		if err != nil {
+			return err
+		}
+
 		done := false
 		if _, err := f.writeOps.Update(
 			func() (config.FileConfig, error) {
@@ -171,7 +177,7 @@ func (f *File) syncWithoutLocking() error {
 							return nil, err
 						}
 
-						return f.writeBuf, nil
+						return nopCloserReadSeeker{f.writeBuf}, nil
 					},
 					Info: hdr.FileInfo(),
 					Path: f.path,
@@ -184,10 +190,20 @@ func (f *File) syncWithoutLocking() error {
 		); err != nil {
 			return err
 		}
+
+		if _, err := f.writeBuf.Seek(pos, io.SeekStart); err != nil {
+			return err
+		}
 	}
 
 	return nil
 }
+
+type nopCloserReadSeeker struct {
+	io.ReadSeeker
+}
+
+func (nopCloserReadSeeker) Close() error { return nil }
 
 func (f *File) closeWithoutLocking() error {
 	f.log.Trace("File.closeWithoutLocking", map[string]interface{}{
@@ -207,8 +223,11 @@ func (f *File) closeWithoutLocking() error {
 	}
 
 	if f.writeBuf != nil {
-		// No need to close write buffer, the `update` operation closes it itself
 		if err := f.syncWithoutLocking(); err != nil {
+			return err
+		}
+
+		if err := f.writeBuf.Close(); err != nil {
 			return err
 		}
 
